@@ -116,12 +116,19 @@ PYNAME = {'SUM': 'sum_', 'AVERAGE': 'average', 'MIN': 'min_', 'MAX': 'max_', 'CO
           'SUMPRODUCT': 'sumproduct'}
 REL = Fraction(1, 10 ** 12)
 
+class SubFloat(float):
+    """a float of another class, like the ScalarFloat a model loaded from yml / json holds and the numpy.float64
+    that SLOPE / FORECAST return (repr() stays a plain number: some routes write values as text)"""
+
+
 NUM_EXACT = (0, 1, 2, 3, 5, 7, 10, 12, 64, 100, -1, -2, -7, -100,
-             0.5, -0.5, 0.25, 1.5, -2.75, 3.125, 2.0, 0.0, -0.0)
+             0.5, -0.5, 0.25, 1.5, -2.75, 3.125, 2.0, 0.0, -0.0,
+             # numbers of a subclass of float
+             SubFloat(4.5), SubFloat(6.0))
 NUMTEXT = ('3', ' 3 ', '1e2', '-4.5')
-TEXT = ('x', 'abc', 'TRUE', '')
+TEXT = ('x', 'abc', 'TRUE', '', '# sold', '#12')        # (text that starts like an error value is text)
 LOGICAL = (True, False)
-FULL_POOL = NUM_EXACT + NUMTEXT + TEXT + LOGICAL + (None,) + ERRORS            # 41 values
+FULL_POOL = NUM_EXACT + NUMTEXT + TEXT + LOGICAL + (None,) + ERRORS            # 45 values
 SMALL_POOL = (1, 2.5, -3, '3', 'x', True, False, None, '#N/A', '#DIV/0!')      # 10 values
 BIG_INTS = (10 ** 6, 999999, 10 ** 6 - 7, 987654, -10 ** 6, -999999)
 FILLS = ('numeric', 'mixed', 'sparse', 'nothing-numeric', 'blank', 'logical-heavy', 'numtext-heavy',
